@@ -208,11 +208,13 @@ func (s *Datastore) read(ctx context.Context, store string, filter storage.ReadF
 			})
 		}
 		if userObjectID != "" {
+			// A concrete user: the relation part must match too, so that the object
+			// "folder:1" does not also select the usersets "folder:1#viewer".
 			sb = sb.Where(sq.Eq{
 				"user_object_id": userObjectID,
+				"user_relation":  userRelation,
 			})
-		}
-		if userRelation != "" {
+		} else if userRelation != "" {
 			sb = sb.Where(sq.Eq{
 				"user_relation": userRelation,
 			})
@@ -817,12 +819,12 @@ func (s *Datastore) ReadStartingWithUser(
 	var targetUsersArg sq.Or
 	for _, u := range filter.UserFilter {
 		userObjectType, userObjectID, userRelation := tupleUtils.ToUserPartsFromObjectRelation(u)
+		// The relation part is always matched: the object "folder:1" (empty relation)
+		// must not select the usersets "folder:1#viewer".
 		targetUser := sq.Eq{
 			"user_object_type": userObjectType,
 			"user_object_id":   userObjectID,
-		}
-		if userRelation != "" {
-			targetUser["user_relation"] = userRelation
+			"user_relation":    userRelation,
 		}
 		targetUsersArg = append(targetUsersArg, targetUser)
 	}
